@@ -69,7 +69,7 @@ func suiteRange(r *Rng, n int, thorough bool, o *Out) {
 			for _, nm := range []string{"a", "b"}[:1+r.IntN(2)] {
 				putAttr(&typ, jsonapi.Attr{Name: nm, Type: k, Nullable: nullable})
 			}
-			o.stat("focus." + jsonapi.GetAttrTypeString(k, nullable))
+			o.stat("focus." + kindNameIndep(k, nullable))
 		}
 		size := r.IntN(9)
 		wrapped := r.bool()
@@ -135,20 +135,21 @@ func suiteRange(r *Rng, n int, thorough bool, o *Out) {
 			na := jsonapi.Attr{Name: "zz", Type: []int{jsonapi.AttrTypeString, jsonapi.AttrTypeInt, jsonapi.AttrTypeBool, jsonapi.AttrTypeBytes}[r.IntN(4)]}
 			sc.Type.RemoveAttr(drop)
 			_ = sc.Type.AddAttr(na)
-			typ = typ.Copy()
+			typ = copyTypeIndep(typ)
 			delete(typ.Attrs, drop)
 			typ.Attrs["zz"] = na
 			for i := 0; i < sc.Len(); i++ {
-				want := newSoft(typ)
+				// expected: the values the generator wrote, zz at its zero - written down by
+				// the harness (sxViewIndep), not read through a second resource of the library
 				vs := map[string]any{}
 				for k, v := range allVals[i] {
 					if k != drop {
 						vs[k] = v
 					}
 				}
-				fill(want, idPool[idPerm[i]], vs)
-				if got := sxResView(sc.At(i)); got != sxResView(want) && stale == "" {
-					stale = fmt.Sprintf("FAIL:after the collection's type swapped attribute %s for zz, element %d reads %s, expected %s", drop, i, got, sxResView(want))
+				want := sxViewIndep(typ, idPool[idPerm[i]], vs)
+				if got := sxResView(sc.At(i)); got != want && stale == "" {
+					stale = fmt.Sprintf("FAIL:after the collection's type swapped attribute %s for zz, element %d reads %s, expected %s", drop, i, got, want)
 				}
 			}
 			o.stat("col.type-swapped-in-place")
@@ -178,8 +179,8 @@ func suiteRange(r *Rng, n int, thorough bool, o *Out) {
 				continue
 			}
 			a := attrNames[r.IntN(len(attrNames))]
-			tags = append(tags, "k"+jsonapi.GetAttrTypeString(typ.Attrs[a].Type, typ.Attrs[a].Nullable))
-			o.stat("sortkind." + jsonapi.GetAttrTypeString(typ.Attrs[a].Type, typ.Attrs[a].Nullable))
+			tags = append(tags, "k"+kindNameIndep(typ.Attrs[a].Type, typ.Attrs[a].Nullable))
+			o.stat("sortkind." + kindNameIndep(typ.Attrs[a].Type, typ.Attrs[a].Nullable))
 			if r.chance(1, 3) || (c%2 == 1 && r.bool()) {
 				a = "-" + a
 			}
@@ -204,11 +205,11 @@ func suiteRange(r *Rng, n int, thorough bool, o *Out) {
 			// values of a random member as anchor so that the filter is selective but not empty
 			anchor := col.At(r.IntN(col.Len()))
 			vals := map[string]any{}
-			for _, k := range typ.Fields() {
+			for _, k := range fieldsIndep(typ) {
 				vals[k] = anchor.Get(k)
 				if vals[k] == nil { // wrapped nil pointer: typed nil of the attribute
 					a := typ.Attrs[k]
-					vals[k] = jsonapi.GetZeroValue(a.Type, a.Nullable)
+					vals[k] = zeroIndep(a.Type, a.Nullable)
 				}
 			}
 			flt = genFilterTree(r, typ, vals, r.IntN(2), &Out{stats: map[string]int{}})
